@@ -254,6 +254,7 @@ class Acl(AceGroup):
     @platform.setter
     def platform(self, platform: str) -> None:
         platform = h.init_platform(platform=platform)
+        h.init_type(type=self._type, platform=platform)  # no standard ACL on NX-OS
         if platform == "nxos":
             self.ungroup_ports()
         self._platform = platform
